@@ -165,3 +165,68 @@ Fixpoint pexec (s : pstate) (h : list pop) : pstate :=
   match h with [] => s | o :: r => pexec (fst (pstep s o)) r end.
 Fixpoint pouts (s : pstate) (h : list pop) : list (list pev) :=
   match h with [] => [] | o :: r => snd (pstep s o) :: pouts (fst (pstep s o)) r end.
+
+(* =============================================================================================
+   Stage 3 additions (nothing above is changed).
+
+   ---------------- callbacks that raise ----------------
+   emit() has no try/except around `res.append(f(sender, *args, **kwargs))`: an exception raised by a
+   callback leaves the loop and emit() at once -- the callbacks after it are not called and the
+   results collected so far are lost.  [behx f sender arg = None] = this call raises. *)
+Inductive outx (Arg Res : Type) :=
+| XNone | XError | XBad
+| XEmit (calls : list (call Arg)) (r : ret Res)
+| XRaise (calls : list (call Arg)).   (* calls made; the last one raised and emit() propagated it *)
+Arguments XNone {Arg Res}. Arguments XError {Arg Res}. Arguments XBad {Arg Res}.
+Arguments XEmit {Arg Res}. Arguments XRaise {Arg Res}.
+
+Section EmitterX.
+Variables Arg Res : Type.
+Variable behx : func -> Z -> Arg -> option Res.
+
+Fixpoint emit_loop_x (single : bool) (ev snd : Z) (a : Arg) (l : list entry)
+         (calls : list (call Arg)) (res : list Res) : outx Arg Res :=
+  match l with
+  | [] => XEmit calls (RList res)
+  | c :: r =>
+      if matches ev snd c then
+        match behx (e_func c) snd a with
+        | None => XRaise (calls ++ [mkcall (e_func c) snd a])
+        | Some x =>
+            if single then XEmit (calls ++ [mkcall (e_func c) snd a]) (RSingle x)
+            else emit_loop_x single ev snd a r (calls ++ [mkcall (e_func c) snd a]) (res ++ [x])
+        end
+      else emit_loop_x single ev snd a r calls res
+  end.
+
+Definition emit_x (s : state) (ev snd : Z) (a : Arg) (single : option bool) : outx Arg Res :=
+  if flag s then XEmit [] RNone else
+  emit_loop_x (truthy single) ev snd a
+              (filter (fun c => negb (e_last c)) (cbs s) ++ filter e_last (cbs s)) [] [].
+
+(* the other operations are those of [step]; a raising emit leaves _callbacks and is_silent alone *)
+Definition step_x (s : state) (o : op Arg) : state * outx Arg Res :=
+  match o with
+  | Connect f st sf l =>
+      match entry_of f st sf l with
+      | Some c => (mkstate (cbs s ++ [c]) (flag s) (saved s), XNone)
+      | None => (s, XError)
+      end
+  | Unconnect items => (mkstate (filter (fun c => negb (hit items c)) (cbs s)) (flag s) (saved s), XNone)
+  | Reset => (mkstate [] (flag s) (saved s), XNone)
+  | SetSilent b => (mkstate (cbs s) b (saved s), XNone)
+  | SilentEnter => (mkstate (cbs s) true (flag s :: saved s), XNone)
+  | SilentExit => match saved s with
+                  | b :: r => (mkstate (cbs s) b r, XNone)
+                  | [] => (s, XBad)
+                  end
+  | Emit ev snd a single => (s, emit_x s ev snd a single)
+  end.
+
+Fixpoint exec_x (s : state) (h : list (op Arg)) : state :=
+  match h with [] => s | o :: r => exec_x (fst (step_x s o)) r end.
+Fixpoint outs_x (s : state) (h : list (op Arg)) : list (outx Arg Res) :=
+  match h with [] => [] | o :: r => snd (step_x s o) :: outs_x (fst (step_x s o)) r end.
+End EmitterX.
+Arguments emit_loop_x {Arg Res}. Arguments emit_x {Arg Res}. Arguments step_x {Arg Res}.
+Arguments exec_x {Arg Res}. Arguments outs_x {Arg Res}.
